@@ -19,6 +19,9 @@ CLAIMED = {
  "C12": ("§7 C12", "Every Writer call sequence up to length L over a 14-call alphabet (legal and illegal), in four writer configurations, is executed on the real Writers: no panic, errors are sticky, output is deterministic, and whenever the final Finish returns nil the bytes are valid under an independent decoder and equal the stream a reference automaton builds from the successful calls. The whole sequence space below the bound is covered.",
          "Trusts the refwriter automaton and the independent decoders; sequences longer than L and calls outside the alphabet are not covered.",
          "explicit enumeration of all operation sequences up to a depth on the implementation, lock-step with a reference protocol automaton"),
+ "C13": ("§7 C13", "Exhaustive enumeration on the real code of: every boundary integer and every integer of a dense small range through six carriers and all four integer accessors; the full type x nullness x accessor matrix in both formats; floats over all exponents x mantissa patterns around the float32 cut; the integer codecs composed with their decoders at every power-of-two boundary; symbol IDs at encoding boundaries up to 2^32. Each result compared with exact arithmetic.",
+         "Trusts math/big and IEEE bit conversions; integers beyond 2^80, mantissa patterns outside the enumerated set are not covered.",
+         "explicit enumeration of inputs x accessors on the implementation vs exact arithmetic"),
  "C14": ("§7 C14", "Bounded exhaustive exploration of the real Decimal code: every decimal of a boundary grid through every unary operation and argument, every ordered pair through Add/Sub/Mul/Cmp/Equal, every literal spelling of a product alphabet through ParseDecimal, each compared with exact integer arithmetic. Coverage statement, not a sample: no case inside the grid violates the property.",
          "Trusts math/big and the 30-line reference literal grammar; values outside the grid (other coefficients, exponent gaps above the bound) are not covered.",
          "explicit enumeration of the operand/operation choice tree on the implementation (stateless explorer) vs exact-arithmetic reference"),
